@@ -169,8 +169,13 @@ func (o *OracleC05) AfterCall(n *Node, st *Step) {
 		return
 	}
 	nv := len(want)
-	for name, l := range map[string][]dbft.ConsensusPayload[Hash]{"preparation": d.PreparationPayloads, "commit": d.CommitPayloads,
-		"precommit": d.PreCommitPayloads, "change-view": d.ChangeViewPayloads, "last change-view": d.LastChangeViewPayloads} {
+	tables := []struct {
+		name string
+		l    []dbft.ConsensusPayload[Hash]
+	}{{"preparation", d.PreparationPayloads}, {"commit", d.CommitPayloads}, {"precommit", d.PreCommitPayloads},
+		{"change-view", d.ChangeViewPayloads}, {"last change-view", d.LastChangeViewPayloads}}
+	for _, tb := range tables { // fixed order: the first violation reported must not depend on map iteration
+		name, l := tb.name, tb.l
 		if len(l) != nv {
 			o.viol(n, "table_size_after_reset", "height %d: %s table has %d slots for %d validators", d.BlockIndex, name, len(l), nv)
 			return
